@@ -129,6 +129,7 @@ type Model struct {
 	// event sequence numbers: start of the last successful UNBIND completion /
 	// end of the last BIND completion that named the key
 	cUnbindInv, cBindRet map[string]int
+	cHomeSure            map[string]bool // home fixed by a BIND completion no other BIND completion overlapped
 	bindDones            int     // BIND completion callbacks currently running
 	bindOverlap          bool    // ... and whether another one overlapped the running ones
 	readingOut           [2]bool // C07: readings of "last response" contradicted so far in this run
@@ -218,8 +219,11 @@ func NewModel(s *Sim) *Model {
 
 //go:norace
 func (m *Model) v(prop, rule, facts, msg string, op int) {
-	if m.track && !(m.degraded && (prop == "C04" && (rule == "missing-publication" || rule == "published-state-mismatch" || rule == "inert-report-had-effect") ||
-		prop == "C20" && (rule == "replacement-stale-addrs" || rule == "new-conn-stale-addrs"))) {
+	burst := m.s != nil && m.s.plan.Concurrent && m.s.conc // degraded concurrent burst: only the burst-proof clauses
+	if m.track && !(m.degraded && (!burst && prop == "C04" && (rule == "missing-publication" || rule == "inert-report-had-effect") ||
+		prop == "C04" && rule == "published-state-mismatch" ||
+		!burst && prop == "C20" && (rule == "replacement-stale-addrs" || rule == "new-conn-stale-addrs") ||
+		prop == "C03" && rule == "growth-while-pending")) {
 		// degraded serial runs (a live connection was shut down under the pool):
 		// C04 quantifies over "shutdowns in any order", its callback-level clauses
 		// stay judged; so do C20's address clauses (a connection that joins the pool
@@ -267,6 +271,24 @@ func (m *Model) allReady() bool {
 		}
 	}
 	return true
+}
+
+// KnownBound returns the burst keys that are certainly bound, and where: the
+// first BIND completion naming the key ran without another BIND completion
+// beside it (it decides the channel; later BINDs do not move a bound key) and
+// no UNBIND for the key was ever started.
+//
+//go:norace
+func (m *Model) KnownBound() (keys []string, home map[string]int) {
+	home = map[string]int{}
+	for k := range m.cHomeSure {
+		if k != "" && m.cBound[k] && !m.cDropped[k] {
+			keys = append(keys, k)
+			home[k] = m.cHome[k]
+		}
+	}
+	sort.Strings(keys)
+	return
 }
 
 // KnownUnbound returns the burst keys that are certainly unbound now: a
@@ -568,6 +590,21 @@ func (m *Model) newSC(ev Event) {
 		m.probe("refresh_started")
 	default:
 		// pool growth (pick) or pool creation (resolver update)
+		if m.track && ev.Phase == PhPick && m.op == nil {
+			// Concurrent burst, schedule-independent (C03): the pool is grown and the
+			// "no channel is idle or connecting" guard is evaluated in one critical
+			// section of the balancer, and only balancer callbacks change a channel's
+			// state. With no callback in flight at this instant the balancer knows
+			// exactly the states delivered so far: a channel that is still idle or
+			// connecting forbids the growth, whichever calls run beside this one.
+			for _, o := range m.chans {
+				if !o.gone && (o.state == connectivity.Idle || o.state == connectivity.Connecting) {
+					m.vAlwaysOr(m.degraded, "C03", "growth-while-pending", "concurrent", fmt.Sprintf("call %d added connection sc%d to the pool while channel %d (sc%d) is %v and no state report is being processed: a channel is added only while no channel is idle or connecting", ev.Call, ev.Conn, o.idx, o.cur, o.state), ev.Op)
+					break
+				}
+			}
+			m.probe("concurrent_growth_judged")
+		}
 		ch := &chanM{idx: len(m.chans), cur: ev.Conn, state: connectivity.Idle, repl: -1, created: ev.At}
 		ch.lastResp[0], ch.lastResp[1] = ev.At, ev.At
 		m.chans = append(m.chans, ch)
@@ -1500,6 +1537,10 @@ func (m *Model) doneReturn(ev Event) {
 							m.cBinds[k]++
 							if _, had := m.cHome[k]; m.cBinds[k] == 1 && !had && m.bindDones == 1 && !m.bindOverlap {
 								m.cHome[k] = cm.ch
+								if m.cHomeSure == nil {
+									m.cHomeSure = map[string]bool{}
+								}
+								m.cHomeSure[k] = true
 								m.probe("concurrent_home_fixed_by_bind")
 							}
 						}
